@@ -13,6 +13,8 @@
 //   - a uniform integer scale factor on all endpoint weights of one ClusterLoadAssignment;
 //   - priorities of localities at the same distance; whether failover priorities are used at all
 //     unless the DestinationRule configures failover explicitly together with outlier detection;
+//     (a node-local service - internalTrafficPolicy: Local - is not an open cell: members are the
+//     endpoints on the proxy's own node in the proxy's own cluster)
 //   - localities that `distribute` does not name: their endpoints may be absent, or listed in a
 //     locality of weight 0 ("any locality not present will receive no traffic").
 package c13b
@@ -126,6 +128,16 @@ func judge(e epSpec, c viewCtx) epVerdict {
 	}
 	if e.SameClusterOnly && e.clusterID() != c.Px.Cluster {
 		return epVerdict{V: forbidden, Why: "discoverable-from-same-cluster-only"}
+	}
+	// internalTrafficPolicy: Local - only endpoints on the proxy's own node; a node is a machine of
+	// one cluster, so an equally named node of another cluster is another node
+	if c.Fl.NodeLocal {
+		if e.clusterID() != c.Px.Cluster {
+			return epVerdict{V: forbidden, Why: "node-local-service-other-cluster"}
+		}
+		if e.Node != c.Px.Node {
+			return epVerdict{V: forbidden, Why: "node-local-service-other-node"}
+		}
 	}
 	// address form
 	if e.isHostname() && open == "" {
@@ -258,6 +270,11 @@ var gatewayNetOf = func() map[string]string {
 
 var healthName = map[int]string{int(model.Healthy): "HEALTHY", int(model.UnHealthy): "UNHEALTHY", int(model.Draining): "DRAINING"}
 
+var suspectOrder = []string{
+	"node-local-service-other-cluster", "node-local-service-other-node", "cluster-local-service-other-cluster", "discoverable-from-same-cluster-only",
+	"terminating", "draining-without-persistent-session", "unhealthy-not-allowed", "subset-labels-do-not-match", "other-service-port",
+}
+
 var alphaIndex map[string]epSpec
 
 func alphaByAddr(alpha []epSpec) map[string]epSpec {
@@ -289,6 +306,8 @@ func memberKey(kind string, e epSpec, v epVerdict, c viewCtx) string {
 		k += fmt.Sprintf("|settings=%s,minHealthPercent=%d|ep=%s", c.Ft.Name, c.DR.MinHealth, healthDesc(e))
 	case "terminating":
 		k += "|ep=" + healthDesc(e)
+	case "cluster-local-service-other-cluster", "node-local-service-other-cluster", "node-local-service-other-node", "discoverable-from-same-cluster-only":
+		// visibility: which endpoint it is does not matter
 	default:
 		k += "|ep=" + e.Class
 	}
@@ -342,23 +361,25 @@ func check(o *obsCLA, w world, c viewCtx, alpha []epSpec) []finding {
 			seen[x.Addr]++
 			if net, isGw := gatewayNetOf[x.Addr]; isGw {
 				if _, ok := gwNeed[net]; !ok {
-					// name the shape after the reasons why the reported endpoints of that network are no members
-					whys := map[string]bool{}
+					// which non-member the gateway stands for cannot be told; the key names one suspect: the
+					// reason, first in a fixed order (visibility, health, selection), why a reported endpoint of
+					// that network is no member
+					suspect := "not-in-the-latest-report"
+					best := len(suspectOrder)
+					var all []string
 					for _, a := range raddrs {
 						if e := reported[a]; e.Net == net {
-							whys[verdicts[a].Why] = true
+							why := verdicts[a].Why
+							all = append(all, e.Name+":"+why)
+							for i, w := range suspectOrder {
+								if w == why && i < best {
+									best, suspect = i, why
+								}
+							}
 						}
 					}
-					var ws []string
-					for w := range whys {
-						ws = append(ws, w)
-					}
-					sort.Strings(ws)
-					if len(ws) == 0 {
-						ws = []string{"not-in-the-latest-report"}
-					}
-					add("membership:unexpected|via=gateways-of-"+net+"|nonmembers="+strings.Join(ws, "+"),
-						"gateway %s of network %s is listed although no member endpoint lives on that network", x.Addr, net)
+					add("membership:unexpected|why="+suspect+"|via=gateways-of-"+net,
+						"gateway %s of network %s is listed although no member endpoint lives on that network (reported there: %v)", x.Addr, net, all)
 				}
 				continue
 			}
